@@ -734,7 +734,7 @@ func c08Forky(b *fw.B, k int) {
 
 func firstWord(s string) string {
 	for i, ch := range s {
-		if ch == ' ' || ch == ':' || ch == '[' {
+		if ch == ' ' || ch == ':' || ch == '[' || ch == '(' {
 			return s[:i]
 		}
 	}
